@@ -1635,6 +1635,18 @@ impl IdmServerAuthTransaction<'_> {
     ) -> Result<Option<LdapBoundToken>, OperationError> {
         match self.validate_and_parse_token_to_identity_token(&lae.token, ct)? {
             Token::UserAuthToken(uat) => {
+                // The bind result is what an LDAP client treats as "authenticated", so the
+                // account validity window and the session state must be enforced here and
+                // not only when the bound session is used for an operation.
+                match self.process_uat_to_identity(&uat, ct, Source::Internal) {
+                    Ok(_) => {}
+                    Err(OperationError::SessionExpired) => {
+                        security_info!("Bind token session is expired, revoked or the account is not within its valid time period");
+                        return Ok(None);
+                    }
+                    Err(err) => return Err(err),
+                }
+
                 let spn = uat.spn.clone();
                 Ok(Some(LdapBoundToken {
                     session_id: uat.session_id,
@@ -1643,6 +1655,16 @@ impl IdmServerAuthTransaction<'_> {
                 }))
             }
             Token::ApiToken(apit, entry) => {
+                // As above - enforce validity window and api token session presence at bind time.
+                match self.process_apit_to_identity(&apit, Source::Internal, entry.clone(), ct) {
+                    Ok(_) => {}
+                    Err(OperationError::SessionExpired) => {
+                        security_info!("Bind api token is not valid or the account is not within its valid time period");
+                        return Ok(None);
+                    }
+                    Err(err) => return Err(err),
+                }
+
                 let spn = entry
                     .get_ava_single_proto_string(Attribute::Spn)
                     .ok_or_else(|| OperationError::MissingAttribute(Attribute::Spn))?;
